@@ -202,6 +202,47 @@ func runDynamicReplaceFallback(rr *RuleRun) {
 						}
 					}
 				}
+				// if in.IsX() {…} else if in.IsY() {…} else { return out }
+				for e := s.Else; e != nil; {
+					switch x := e.(type) {
+					case *ast.IfStmt:
+						e = x.Else
+					case *ast.BlockStmt:
+						for _, b := range x.List {
+							if r, ok := b.(*ast.ReturnStmt); ok && len(r.Results) == 1 && objOf(info, r.Results[0]) == out && mentionsAny(info, s.Cond, map[types.Object]bool{in: true}) {
+								hasFallback = true
+							}
+						}
+						e = nil
+					default:
+						e = nil
+					}
+				}
+			case *ast.SwitchStmt:
+				// the same dispatch written as a tagless switch on the source's shape with 'default: return out'
+				if s.Tag != nil {
+					continue
+				}
+				onIn := false
+				var def *ast.CaseClause
+				for _, cl := range s.Body.List {
+					c2 := cl.(*ast.CaseClause)
+					if len(c2.List) == 0 {
+						def = c2
+					}
+					for _, e := range c2.List {
+						if mentionsAny(info, e, map[types.Object]bool{in: true}) {
+							onIn = true
+						}
+					}
+				}
+				if onIn && def != nil {
+					for _, b := range def.Body {
+						if r, ok := b.(*ast.ReturnStmt); ok && len(r.Results) == 1 && objOf(info, r.Results[0]) == out {
+							hasFallback = true
+						}
+					}
+				}
 			}
 		}
 		if hasFallback {
